@@ -6,7 +6,7 @@ import (
 	"strings"
 )
 
-func init() { allFacts = append(allFacts, factFlagSrc) }
+func init() { allFacts = append(allFacts, factFlagSrc, factFlagParseGuard) }
 
 // F14: the flag sources (sources/flag/flag.go, sources/pflag/pflag.go, sources/flag/flaghelper/*.go)
 //   a  routing table of registerFlags: for each `case` of the three switches (tagless, `switch k`, `switch ft`)
@@ -401,4 +401,41 @@ func boolStr(b bool) string {
 		return "true"
 	}
 	return "false"
+}
+
+// factFlagParseGuard (F14p): Value parses the flag set only when it has not been parsed yet
+// (`if !s.Flags.Parsed() { … s.parse() … }` as a statement of Value itself, in both packages), so a flag set the
+// application parsed before asking dials for the value is not parsed a second time - a second parse would hand every
+// accumulating flag each of its occurrences again.
+func factFlagParseGuard() {
+	ok := map[string]bool{}
+	for _, rel := range []string{"sources/flag/flag.go", "sources/pflag/pflag.go"} {
+		f := parse(rel)
+		fd := methodDecl(f, "Set", "Value")
+		if fd == nil {
+			continue
+		}
+		guarded, unguarded := false, false
+		for _, st := range fd.Body.List {
+			switch x := st.(type) {
+			case *ast.IfStmt:
+				if src(x.Cond) == "!s.Flags.Parsed()" && strings.Contains(src(x.Body), "s.parse()") {
+					guarded = true
+				}
+			default:
+				if strings.Contains(src(st), "s.parse()") || strings.Contains(src(st), "ParseFunc()") {
+					unguarded = true
+				}
+			}
+		}
+		// the guard must not have moved into parse() (where it would only cover one branch)
+		if pd := methodDecl(f, "Set", "parse"); pd != nil && strings.Contains(src(pd.Body), "Parsed()") {
+			unguarded = true
+		}
+		ok[rel] = guarded && !unguarded
+	}
+	if len(ok) != 2 {
+		miss("F14p", "sources/flag/flag.go and sources/pflag/pflag.go: method (*Set).Value")
+	}
+	emit("/-- F14p: both flag sources parse the flag set in Value only under `if !s.Flags.Parsed()` -/\ndef flagParseOnlyIfUnparsed : Bool := %v\n\n", ok["sources/flag/flag.go"] && ok["sources/pflag/pflag.go"])
 }
